@@ -44,10 +44,15 @@ def _nested_same_generic(h, inside=False):
     return any(_nested_same_generic(a, inside) for a in h.get('a', []) or [] if isinstance(a, dict))
 
 
+def _mentions_inttable(h):
+    return (h['k'] == 'gen' and h.get('n') == 'IntTable') or any(_mentions_inttable(a) for a in h.get('a', []) or [] if isinstance(a, dict))
+
+
 def _generate(rng, run, tier):
     r = rng.random()
     conf = entry.gen_conf(rng, allow_tower=False)
     allow_nested = rng.random() < 0.1
+    allow_inttable = rng.random() < 0.15       # avoid switch: known finding C02-generic-partial-reparametrisation
     if allow_nested and r < 0.45 and rng.random() < 0.5:
         # drive straight at the known finding: a list-based user generic nested directly in itself
         inner = H.gen_hint(rng, 1)
@@ -63,6 +68,8 @@ def _generate(rng, run, tier):
             h = H.gen_hint(rng, rng.choice([1, 2, 3, 3]))
             if _nested_same_generic(h) and not allow_nested:
                 continue     # avoid switch: known finding C02-generic-nested-in-itself
+            if _mentions_inttable(h) and not allow_inttable:
+                continue
             try:
                 o, where = H.gen_violating(rng, h)
             except H.CannotGenerate:
@@ -81,6 +88,8 @@ def _generate(rng, run, tier):
             else:
                 h = {'k': 'seq', 'o': rng.choice(list(H.SEQ_ORIGINS)), 'a': [child]}
             if _nested_same_generic(h) and not allow_nested:
+                continue
+            if _mentions_inttable(h) and not allow_inttable:
                 continue
             try:
                 o, i = H.gen_one_bad(rng, h)
@@ -196,7 +205,24 @@ def _sig_generic_recursion(case, v):
     return v.get('kind') in ('missed_must_reject', 'unreachable_index', 'nonrandom_not_item0') and _nested_same_generic(case.get('h', {'k': 'x'}))
 
 
-SIGNATURES = {'generic_nested_in_itself': _sig_generic_recursion}
+def _sig_partial_reparam(case, v):
+    """Known finding C02-generic-partial-reparametrisation: the acceptance is explained by 'the values of an IntTable[X] are not
+    checked against X' (decided by re-evaluating the reference oracle under that model of the defect)."""
+    if v.get('kind') not in ('missed_must_reject', 'unreachable_index', 'nonrandom_not_item0') or not _mentions_inttable(case.get('h', {'k': 'x'})):
+        return False
+    H.DEFECT_MODELS.add('inttable_values_unchecked')
+    try:
+        x = H.build_obj(case['x'])
+        if case.get('mode') in ('onebad', 'item0'):
+            return not H.must_reject(case['h']['a'][0], list(x)[case['i']])
+        return not H.must_reject(case['h'], x)
+    except Exception:       # noqa
+        return False
+    finally:
+        H.DEFECT_MODELS.discard('inttable_values_unchecked')
+
+
+SIGNATURES = {'generic_nested_in_itself': _sig_generic_recursion, 'generic_partial_reparametrisation': _sig_partial_reparam}
 
 
 def describe(case):
